@@ -159,7 +159,8 @@ func (r *yieldRewriter) rewriteStmts(
 		// the stmts after break / continue are unreachable and dropped, but they still count as uses of
 		// the variables they mention (declared and not used): keep them where they never run
 		if dead := X.Block(stmts[idx+1:]...); r.mustNoYield(dead) && !containsDefer(dead) {
-			children.push(&ast.IfStmt{Cond: X.Ident("false"), Body: dead}, kindTrival)
+			never := &ast.BinaryExpr{X: &ast.BasicLit{Kind: token.INT, Value: "0"}, Op: token.NEQ, Y: &ast.BasicLit{Kind: token.INT, Value: "0"}}
+			children.push(&ast.IfStmt{Cond: never /* not the ident false: a local may shadow it */, Body: dead}, kindTrival)
 			children = r.combineIfNecessary(children)
 		}
 	}
